@@ -24,13 +24,14 @@ type recipe struct {
 	SeqIndent bool   `json:"seqindent"`
 	Comments  bool   `json:"comments"`
 	JSON      string `json:"json"`
+	Alias     bool   `json:"alias"`
 }
 
 func (r recipe) String() string {
 	if r.JSON != "none" {
 		return "json-" + r.JSON
 	}
-	return fmt.Sprintf("map=%s seq=%s str=%s key=%s indent=%d seqindent=%v comments=%v", r.Map, r.Seq, r.Str, r.Key, r.Indent, r.SeqIndent, r.Comments)
+	return fmt.Sprintf("map=%s seq=%s str=%s key=%s indent=%d seqindent=%v comments=%v alias=%v", r.Map, r.Seq, r.Str, r.Key, r.Indent, r.SeqIndent, r.Comments, r.Alias)
 }
 
 // errNA: the document has no spelling under this recipe (or uses a construct the
@@ -163,6 +164,102 @@ type speller struct {
 	r recipe
 	b strings.Builder
 	n int // entries written (comment cadence)
+	// alias recipe: canonical text of a repeated mapping -> anchor name; written: anchors already defined
+	anchors map[string]string
+	written map[string]bool
+	inRaw   bool // below a member whose value ogen keeps raw
+}
+
+// canon is a canonical text of a node as data (aliases expanded).
+func canon(n *yaml.Node, b *strings.Builder) {
+	n = resolve(n)
+	switch n.Kind {
+	case yaml.MappingNode:
+		b.WriteByte('{')
+		for i := 0; i+1 < len(n.Content); i += 2 {
+			canon(n.Content[i], b)
+			b.WriteByte(':')
+			canon(n.Content[i+1], b)
+			b.WriteByte(',')
+		}
+		b.WriteByte('}')
+	case yaml.SequenceNode:
+		b.WriteByte('[')
+		for _, c := range n.Content {
+			canon(c, b)
+			b.WriteByte(',')
+		}
+		b.WriteByte(']')
+	default:
+		fmt.Fprintf(b, "%s %q", n.ShortTag(), n.Value)
+	}
+}
+
+// rawKeys: members whose values ogen keeps as raw values (not decoded node by node); the
+// alias recipe leaves them alone.
+var rawKeys = map[string]bool{"example": true, "examples": true, "default": true, "enum": true, "const": true}
+
+// planAliases gives an anchor to every non-empty mapping in value position that occurs more
+// than once as data.
+func (sp *speller) planAliases(root *yaml.Node) {
+	count := map[string]int{}
+	var order []string
+	var walk func(n *yaml.Node, value bool)
+	walk = func(n *yaml.Node, value bool) {
+		n = resolve(n)
+		switch n.Kind {
+		case yaml.MappingNode:
+			if value && len(n.Content) >= 2 {
+				var b strings.Builder
+				canon(n, &b)
+				if count[b.String()] == 0 {
+					order = append(order, b.String())
+				}
+				count[b.String()]++
+			}
+			for i := 0; i+1 < len(n.Content); i += 2 {
+				k := resolve(n.Content[i])
+				if rawKeys[k.Value] || strings.HasPrefix(k.Value, "x-") {
+					continue
+				}
+				walk(n.Content[i+1], true)
+			}
+		case yaml.SequenceNode:
+			for _, c := range n.Content {
+				walk(c, true)
+			}
+		}
+	}
+	walk(root, false)
+	sp.anchors, sp.written = map[string]string{}, map[string]bool{}
+	for _, c := range order {
+		if count[c] >= 2 {
+			sp.anchors[c] = fmt.Sprintf("a%d", len(sp.anchors)+1)
+		}
+	}
+}
+
+// aliasFor tells how a value is written under the alias recipe: name == "" as usual,
+// otherwise with the anchor (first) or as the alias.
+func (sp *speller) aliasFor(v *yaml.Node) (name string, first bool) {
+	if len(sp.anchors) == 0 || sp.inRaw {
+		return "", false
+	}
+	v = resolve(v)
+	if v.Kind != yaml.MappingNode || len(v.Content) < 2 {
+		return "", false
+	}
+	var b strings.Builder
+	canon(v, &b)
+	name = sp.anchors[b.String()]
+	if name == "" {
+		return "", false
+	}
+	if sp.written[name] {
+		return name, false
+	}
+	sp.written[name] = true
+	return name, true
 }
 
 func (sp *speller) scalar(n *yaml.Node, key bool) (string, error) {
@@ -227,6 +324,13 @@ func (sp *speller) scalar(n *yaml.Node, key bool) (string, error) {
 
 func (sp *speller) flow(n *yaml.Node) error {
 	n = resolve(n)
+	if name, first := sp.aliasFor(n); name != "" && !sp.inRaw {
+		if !first {
+			sp.b.WriteString("*" + name)
+			return nil
+		}
+		sp.b.WriteString("&" + name + " ")
+	}
 	sepItem, sepKV := ", ", ": "
 	if sp.r.JSON == "compact" {
 		sepItem, sepKV = ",", ":"
@@ -268,7 +372,13 @@ func (sp *speller) flow(n *yaml.Node) error {
 			}
 			sp.b.WriteString(ks)
 			sp.b.WriteString(sepKV)
-			if err := sp.flow(n.Content[i+1]); err != nil {
+			was := sp.inRaw
+			if rawKeys[k.Value] || strings.HasPrefix(k.Value, "x-") {
+				sp.inRaw = true
+			}
+			err = sp.flow(n.Content[i+1])
+			sp.inRaw = was
+			if err != nil {
 				return err
 			}
 		}
@@ -314,19 +424,36 @@ func (sp *speller) block(n *yaml.Node, ind int) error {
 			}
 			sp.b.WriteString(pad + ks + ":")
 			v := n.Content[i+1]
+			was := sp.inRaw
+			if rawKeys[k.Value] || strings.HasPrefix(k.Value, "x-") {
+				sp.inRaw = true
+			}
+			restore := func() { sp.inRaw = was }
 			if sp.isBlock(v) {
+				if name, first := sp.aliasFor(v); name != "" && !sp.inRaw {
+					if !first {
+						sp.b.WriteString(" *" + name + "\n")
+						restore()
+						continue
+					}
+					sp.b.WriteString(" &" + name)
+				}
 				sp.b.WriteByte('\n')
 				child := ind + sp.r.Indent
 				if resolve(v).Kind == yaml.SequenceNode && !sp.r.SeqIndent {
 					child = ind
 				}
-				if err := sp.block(v, child); err != nil {
+				err := sp.block(v, child)
+				restore()
+				if err != nil {
 					return err
 				}
 				continue
 			}
 			sp.b.WriteByte(' ')
-			if err := sp.flow(v); err != nil {
+			err = sp.flow(v)
+			restore()
+			if err != nil {
 				return err
 			}
 			if sp.r.Comments && sp.n%5 == 0 {
@@ -337,7 +464,15 @@ func (sp *speller) block(n *yaml.Node, ind int) error {
 	case yaml.SequenceNode:
 		for _, c := range n.Content {
 			if sp.isBlock(c) {
-				sp.b.WriteString(pad + "-\n")
+				if name, first := sp.aliasFor(c); name != "" && !sp.inRaw {
+					if !first {
+						sp.b.WriteString(pad + "- *" + name + "\n")
+						continue
+					}
+					sp.b.WriteString(pad + "- &" + name + "\n")
+				} else {
+					sp.b.WriteString(pad + "-\n")
+				}
 				if err := sp.block(c, ind+sp.r.Indent); err != nil {
 					return err
 				}
@@ -373,6 +508,9 @@ func spell(doc *yaml.Node, r recipe) ([]byte, error) {
 		root = root.Content[0]
 	}
 	sp := &speller{r: r}
+	if r.Alias {
+		sp.planAliases(root)
+	}
 	if r.Comments {
 		sp.b.WriteString("# re-spelled\n---\n")
 	}
